@@ -178,6 +178,9 @@ def ds_name(evaluatable):
 def check_graph(case, ctx):
     spec = specgen.normalise(case["spec"], ctx.flags | {"no-allopts"}, ctx)
     ref = Ref(spec)
+    if specgen.k6_excluded(ctx, ref, case["options"], single_evaluation=True):
+        ctx.done(case, False, ["excluded-K6"])
+        return
     labels = set()
     nontrivial = False
     cacheable = {d["name"] for d in spec["defs"] if not d.get("nocache")}
@@ -276,6 +279,10 @@ def check_substitution(case, ctx):
     sentinel = ("SUBSTITUTED", target) if spec["defs"][names.index(target)]["body"] == "tag" else "SUBSTITUTED"
     labels = set()
     nontrivial = False
+    if specgen.k6_excluded(ctx, Ref(spec), case["options"], single_evaluation=True) or \
+            specgen.k6_excluded(ctx, Ref(spec, overrides={target: sentinel}), case["options"], single_evaluation=True):
+        ctx.done(case, False, ["excluded-K6"])
+        return
     for o in case["options"]:
         plain_ref = Ref(spec).run(o)
         r = Ref(spec, overrides={target: sentinel}).run(o)
